@@ -5,6 +5,6 @@ LEAN_MODULES = _auto.lean_modules("C08")
 VARIANTS = ['default']
 RULE = 'all digests x key lengths {0,1,B-1,B,B+1,>2B,random} x message lengths and chunkings; non-trivial = non-empty key or message; distinct = distinct case lines'
 TRUSTED = ["hand-written Lean models (lean/CxVerif/Impl, Spec) tied to the code by the correspondence run and by tables re-extracted from /repo/src"]
-ASSUMPTIONS = ['HMAC is proved generically over the digest-object contract and instantiated for the 16 macro-generated wrappers (SHA-1, SHA-2 x6, SHA-3 x4, Keccak x4, RIPEMD-160); HMAC over the legacy BLAKE2b/BLAKE2s wrappers is covered by the correspondence and the hashlib oracle only, unless the evidence lists theorems `hmac_blake2b/hmac_blake2s`', 'the digest handed to Hmac::new must be fresh (as every constructor returns it); message length guards of the underlying hash as in C01']
+ASSUMPTIONS = ['HMAC is proved generically over the digest-object contract and instantiated for the 16 macro-generated wrappers (SHA-1, SHA-2 x6, SHA-3 x4, Keccak x4, RIPEMD-160); and for the legacy BLAKE2b/BLAKE2s wrappers at every output length (`hmac_blake2b/s`, also HKDF and PBKDF2: `hkdf_blake2b/s`, `pbkdf2_hmac_blake2b/s`)', 'the digest handed to Hmac::new must be fresh (as every constructor returns it); message length guards of the underlying hash as in C01']
 gen = _auto.make_gen("C08")
 nontrivial = _auto.default_nontrivial
